@@ -265,5 +265,5 @@ class C08(Check):
 
 
 def main(tier, seed, replay=None):
-    from harness import densex
-    return densex.extend(C08, densex.D08())().main(tier, seed, replay)
+    from harness import densex, units_lift_check
+    return units_lift_check.extend(densex.extend(C08, densex.D08()), units_lift_check.Lift())().main(tier, seed, replay)
